@@ -35,19 +35,24 @@ def lin_cases(draw, tier="quick", nmin=1):
          "layout": draw(st.sampled_from(gen.LAYOUTS)),
          # degenerate data: a zero right-hand side, or a start vector that already is the solution (zero residual at the first
          # iteration: the solution must come back, not nan from 0/0)
-         "special": draw(st.sampled_from([None, None, None, None, "zero_rhs", "start_at_solution"]))}
+         "special": draw(st.sampled_from([None, None, None, None, "zero_rhs", "start_at_solution"])),
+         # the same system in other units: operator times 10^Apow, data times 10^bpow (start vector and shift follow)
+         "Apow": draw(st.sampled_from([0, 0, 0, -5, 5])), "bpow": draw(st.sampled_from([0, 0, 0, -6, 6])),
+         # the requested relative tolerance (tight, or the 1e-6 a user would typically ask for)
+         "tol": draw(st.sampled_from([1e-12, 1e-12, 1e-6]))}
     return c
 
 
 def build_A(c):
     U, V = orth(c["U"]), orth(c["V"])
     r = min(c["m"], c["n"])
-    return gen.relayout(U[:, :r] @ np.diag(c["s"]) @ V[:, :r].T, c.get("layout", "plain"))
+    return gen.relayout(10.0 ** c.get("Apow", 0) * (U[:, :r] @ np.diag(c["s"]) @ V[:, :r].T), c.get("layout", "plain"))
 
 
 def V(c, key):
-    """a vector argument of the case in the case's memory layout"""
-    return gen.relayout(A(c[key]), c.get("layout", "plain"))
+    """a vector argument of the case in the case's memory layout (and units)"""
+    f = 10.0 ** c.get("bpow", 0) if key == "b" else (10.0 ** (c.get("bpow", 0) - c.get("Apow", 0)) if key == "x0" else 1.0)
+    return gen.relayout(f * A(c[key]), c.get("layout", "plain"))
 
 
 @st.composite
@@ -78,7 +83,7 @@ def run_cgls(c, rec):
     import cuqi
     Am = build_A(c)
     m, n = Am.shape
-    b, x0, s = V(c, "b"), V(c, "x0"), c["shift"]
+    b, x0, s = V(c, "b"), V(c, "x0"), c["shift"] * 10.0 ** (2 * c.get("Apow", 0))
     if c.get("special") == "zero_rhs":
         b = gen.relayout(np.zeros(m), c.get("layout", "plain"))
     elif c.get("special") == "start_at_solution" and (m >= n or s > 0):
@@ -89,7 +94,8 @@ def run_cgls(c, rec):
         return
     maxit = 50 * n + 200
     x0c, bc = x0.copy(), b.copy()
-    sol, k = must(lambda: cuqi.solver.CGLS(op_forms(Am, c["form"]), b, x0, maxit, 1e-12, s).solve(), "CGLS.solve")
+    tolr = float(c.get("tol", 1e-12))
+    sol, k = must(lambda: cuqi.solver.CGLS(op_forms(Am, c["form"]), b, x0, maxit, tolr, s).solve(), "CGLS.solve")
     require(maxdiff(x0, x0c) == 0, "CGLS altered the start vector")
     require(maxdiff(b, bc) == 0, "CGLS altered the caller's right-hand side b", before=bc, after=b)
     # A has singular values in [1, 10]: conjugate gradients on the (shifted) normal equations reach 1e-12 in well under
@@ -101,16 +107,18 @@ def run_cgls(c, rec):
     H = Am.T @ Am + s * np.eye(n)
     g = Am.T @ b
     res = np.linalg.norm(H @ sol - g)
-    scale = 1 + np.linalg.norm(g) + np.linalg.norm(H) * np.linalg.norm(sol)
-    require(res <= 1e-8 * scale, "CGLS result does not solve (A^T A + shift I) x = A^T b", residual=res, k=k)
+    scale = np.linalg.norm(g) + np.linalg.norm(H) * (np.linalg.norm(sol) + np.linalg.norm(x0)) + 1e-140
+    require(res <= max(1e-8, 10 * tolr) * scale, "CGLS result does not solve (A^T A + shift I) x = A^T b to the requested tolerance",
+            residual=res, scale=scale, k=k, tol=tolr, norm_of_result=float(np.linalg.norm(sol)))
     if m >= n or s > 0:
         ref = np.linalg.solve(H, g)
     else:
         ref = x0 + np.linalg.pinv(Am) @ (b - Am @ x0)
-    require(close(sol, ref, 1e-7), "CGLS result differs from the reference solution", got=sol, ref=ref)
+    require(maxdiff(sol, ref) <= max(1e-7, 1e4 * tolr) * (np.max(np.abs(ref)) + np.max(np.abs(x0))) + 1e-140, "CGLS result differs from the reference solution",
+            got=sol, ref=ref, tol=tolr)
     # matrix form and function form: same iterates and count
-    sol2, k2 = cuqi.solver.CGLS(op_forms(Am, other_form(c["form"])), b, x0, maxit, 1e-12, s).solve()
-    require(k2 == k and close(sol2, sol, 1e-10), "matrix form and function form of CGLS disagree", k=k, k2=k2)
+    sol2, k2 = cuqi.solver.CGLS(op_forms(Am, other_form(c["form"])), b, x0, maxit, tolr, s).solve()
+    require(k2 == k and maxdiff(sol2, sol) <= 1e-10 * (np.max(np.abs(sol)) + np.max(np.abs(x0))) + 1e-140, "matrix form and function form of CGLS disagree", k=k, k2=k2)
 
 
 @st.composite
@@ -172,13 +180,13 @@ def _run_pcgls_body(c, rec, Am, P, b, x0, m, n, maxit):
         return
     require(k < maxit, "PCGLS did not converge within 50 n + 200 iterations on a well-conditioned system", k=k, maxit=maxit)
     g = Am.T @ (b - Am @ sol)
-    scale = 1 + np.linalg.norm(Am.T @ b) + np.linalg.norm(Am) ** 2 * np.linalg.norm(sol)
+    scale = np.linalg.norm(Am.T @ b) + np.linalg.norm(Am) ** 2 * (np.linalg.norm(sol) + np.linalg.norm(x0)) + 1e-140
     require(np.linalg.norm(g) <= 1e-7 * scale, "PCGLS result does not solve the normal equations A^T A x = A^T b",
             residual=np.linalg.norm(g), k=k)
     ref = np.linalg.solve(Am.T @ Am, Am.T @ b) if m >= n else x0 + _min_P_correction(Am, P, b - Am @ x0)
-    require(close(sol, ref, 1e-6), "PCGLS result differs from the reference solution", got=sol, ref=ref)
+    require(maxdiff(sol, ref) <= 1e-6 * (np.max(np.abs(ref)) + np.max(np.abs(x0))) + 1e-140, "PCGLS result differs from the reference solution", got=sol, ref=ref)
     sol2, k2 = cuqi.solver._solver.PCGLS(op_forms(Am, other_form(c["form"])), b, x0, sp.csc_matrix(P), maxit, 1e-12).solve()
-    require(k2 == k and close(sol2, sol, 1e-10), "matrix form and function form of PCGLS disagree")
+    require(k2 == k and maxdiff(sol2, sol) <= 1e-10 * (np.max(np.abs(sol)) + np.max(np.abs(x0))) + 1e-140, "matrix form and function form of PCGLS disagree")
 
 
 def _min_P_correction(Am, P, r):
